@@ -52,7 +52,73 @@ def finish(name, cases, expect, recs, rule, extra_check=None, families=None):
             fails.append({"text": case[0], "ts": list(case[1]) if case[1] else None, "opts": case[2], "expected": exp if not callable(exp) else "predicate", "observed": obs,
                           "what": "%s: %s" % (name, fam)})
     samples = [{"text": c[0], "ts": list(c[1]) if c[1] else None, "expected": e if not callable(e) else "predicate", "impl": r.get("res")} for c, e, r in list(zip(cases, expect, recs))[:: max(1, len(cases) // 5)]][:6]
+    try:
+        hist = history_check(name, cases, recs)
+        dist["history replays"] = 40
+        fails += hist
+    except Exception as e:
+        dist["history replays skipped: %s" % type(e).__name__] = 1
     return {"evaluations": len(cases), "distinct_nontrivial": len(seen), "failures": fails, "samples": samples, "rule": rule, "distribution": dict(dist)}
+
+
+def label_stratum(rng, cases, exp, fam, k, preds_ok=False):
+    """hashtags never change a resolution (C10) - also not when they stand between the parts of an expression: a sample of the
+    multi-word cases again with a '#tag' at a blank that no single pattern match spans (decided by the library's own matcher)"""
+    from realparse import _init
+    _init()
+    C = sys.modules["ctparse.ctparse"]
+    from ctparse.rule import _regex
+    cand = [i for i, c in enumerate(cases) if isinstance(c[0], str) and " " in c[0].strip() and "#" not in c[0] and (preds_ok or not callable(exp[i])) and not (c[2] or {}).get("frozen_now")]
+    for i in samp(rng, cand, k):
+        t = cases[i][0]
+        n = C._preprocess_string(t)
+        if n != t:
+            continue
+        ms = C._match_regex(n, _regex)
+        pos = [j for j, ch in enumerate(n) if ch == " " and not any(m.mstart < j < m.mend for m in ms)]
+        if not pos:
+            continue
+        j = rng.choice(pos)
+        v = n[:j] + " " + rng.choice(["#work", "#a-b", "#x_1"]) + n[j:]
+        cases.append((v,) + tuple(cases[i][1:])); exp.append(exp[i]); fam.append("label inside: " + str(fam[i]))
+
+
+def option_stratum(rng, cases, exp, fam, k):
+    """what an expression resolves to does not depend on how generously shorter match sequences are admitted: a sample of the
+    cases again with relative_match_len=0.7 (the intended reading still covers the whole expression, so it still wins)"""
+    cand = [i for i, c in enumerate(cases) if isinstance(c[0], str) and not callable(exp[i]) and not (c[2] or {}).get("frozen_now") and "relative_match_len" not in (c[2] or {})]
+    # half of the sample from the texts with most words (more matches, more competing sequences), one per text
+    byw = sorted(cand, key=lambda i: (-len(cases[i][0].split()), rng.random()))
+    seen, longest = set(), []
+    for i in byw:
+        if cases[i][0] not in seen:
+            seen.add(cases[i][0]); longest.append(i)
+        if len(longest) >= k // 2: break
+    idx = longest + samp(rng, [i for i in cand if i not in set(longest)], k - len(longest))
+    for i in idx:
+        o = dict(cases[i][2] or {}); o["relative_match_len"] = 0.7
+        cases.append((cases[i][0], cases[i][1], o)); exp.append(exp[i]); fam.append("relative_match_len 0.7: " + str(fam[i]))
+
+
+def history_check(name, cases, recs, k=40):
+    """a parse is a function of its arguments, not of earlier calls (C12): a sample of the cases again, in this process, after
+    the same text was parsed with latent_time toggled, with another coverage option and in upper case - the answer must be
+    the one the worker process gave first"""
+    from realparse import eval_case
+    rng = random.Random(len(cases))
+    API = {"latent_time", "max_stack_depth", "relative_match_len", "timeout"}
+    cand = [i for i, c in enumerate(cases) if isinstance(c[0], str) and c[1] is not None and set(c[2] or {}) <= API and recs[i].get("err") is None]
+    out = []
+    for i in samp(rng, cand, k):
+        text, ts, o = cases[i][0], cases[i][1], dict(cases[i][2] or {})
+        o2 = dict(o); o2["latent_time"] = not o.get("latent_time", True)
+        for c in ((text, ts, o2), (text.upper(), ts, o), (text, ts, o2)):
+            eval_case(c)
+        r = eval_case((text, ts, o))
+        if r.get("res") != recs[i].get("res") or r.get("err") != recs[i].get("err"):
+            out.append({"text": text, "ts": list(ts), "opts": dict(o, history="parsed before in this process with latent_time=%s and in upper case" % o2["latent_time"]),
+                        "expected": "the answer of a first call: %s" % recs[i].get("res"), "observed": r.get("res") if not r.get("err") else "EXC " + r["err"], "what": "%s: history" % name})
+    return out
 
 
 def case_stratum(rng, cases, exp, fam, k):
@@ -159,6 +225,8 @@ def sweep_c03(rng, tier):
         for (family, text, kind, arg) in forms:
             cases.append((text, ts0, {})); exp.append(c03_expected(ts0, kind, arg)); fam.append(family)
     case_stratum(rng, cases, exp, fam, 240 if tier == "thorough" else 60)
+    label_stratum(rng, cases, exp, fam, 200 if tier == "thorough" else 50)
+    option_stratum(rng, cases, exp, fam, 200 if tier == "thorough" else 60)
     recs = parse_many(cases)
     # an omitted reference time means the current time: freeze `datetime.now` of the module (no source hook) and ask without ts
     import sys as _sys
@@ -262,6 +330,8 @@ def sweep_c04(rng, tier):
             dd = d + timedelta(1) if (h_from, 0) <= (ts[3], ts[4]) else d
             cases.append((w, ts, {})); exp.append(T(dd.year, dd.month, dd.day, pod=name)); fam.append("pod")
     case_stratum(rng, cases, exp, fam, 240 if tier == "thorough" else 60)
+    label_stratum(rng, cases, exp, fam, 200 if tier == "thorough" else 50)
+    option_stratum(rng, cases, exp, fam, 200 if tier == "thorough" else 60)
     recs = parse_many(cases)
     return finish("C04", cases, exp, recs, "weekday / day-of-month / day+month / part-of-day forms from the pattern languages x boundary reference dates; "
                   "expected = nearest matching date by brute-force day stepping; non-trivial = distinct (form, ts) that resolved", families=fam)
@@ -303,11 +373,16 @@ def sweep_c05(rng, tier):
                     cases.append((t, ts, {})); exp.append(e); fam.append(name)
                 h = rng.randint(0, 23); mi = rng.randint(0, 59)
                 cases.append(("%d. %s %d %02d:%02d" % (d, mw, y, h, mi), ts, {})); exp.append(T(y, m, d, h, mi)); fam.append("d. M yyyy hh:mm")
+                # month-name notations with the clock joined by a connector or written first
+                arr = rng.choice(["%(d)d %(M)s %(y)d at %(h)02d:%(mi)02d", "%(h)02d:%(mi)02d %(d)d %(M)s %(y)d", "%(h)02d:%(mi)02d %(M)s %(d)d %(y)d", "%(d)d. %(M)s %(y)d um %(h)02d:%(mi)02d"])
+                cases.append((arr % {"d": d, "M": mw, "y": y, "h": h, "mi": mi}, ts, {})); exp.append(T(y, m, d, h, mi)); fam.append("month name + clock: " + arr.replace("%(", "").replace(")d", "").replace(")s", "").replace(")02d", ""))
             h = rng.randint(0, 23); mi = rng.randint(0, 59)
             cases.append(("%02d.%02d.%d %02d:%02d" % (d, m, y, h, mi), ts, {})); exp.append(T(y, m, d, h, mi)); fam.append("+hh:mm")
             cases.append(("%02d.%02d.%d um %02d:%02d uhr" % (d, m, y, h, mi), ts, {})); exp.append(T(y, m, d, h, mi)); fam.append("+um hh:mm uhr")
             cases.append(("%02d:%02d %02d.%02d.%d" % (h, mi, d, m, y), ts, {})); exp.append(T(y, m, d, h, mi)); fam.append("hh:mm +")
     case_stratum(rng, cases, exp, fam, 240 if tier == "thorough" else 60)
+    label_stratum(rng, cases, exp, fam, 200 if tier == "thorough" else 50)
+    option_stratum(rng, cases, exp, fam, 200 if tier == "thorough" else 60)
     recs = parse_many(cases)
     # overlapping parses (this process, deterministic): a stream over text A is suspended after its first candidate, a text B of
     # the same notation (same layout, other numbers) is parsed completely, then A is resumed - A's best candidate is still A's date
@@ -384,6 +459,8 @@ def sweep_c06(rng, tier):
     for w in G.L("ruleMidnight"):
         cases.append((w, ts0, off)); exp.append(T(h=0, mi=0)); fam.append("midnight")
     case_stratum(rng, cases, exp, fam, 240 if tier == "thorough" else 60)
+    label_stratum(rng, cases, exp, fam, 200 if tier == "thorough" else 50)
+    option_stratum(rng, cases, exp, fam, 200 if tier == "thorough" else 60)
     recs = parse_many(cases)
     return finish("C06", cases, exp, recs, "24 hours x minutes x 18 clock notations (latent off), named hours from the pattern language, quarter/half, hour + part of day, "
                   "and latent anchoring at reference times on both sides of the minute incl. day/month/year roll-over", families=fam)
@@ -485,6 +562,8 @@ def sweep_c07(rng, tier):
             txt = "between %d.%d.%d and %d.%d.%d" % (d1.day, d1.month, d1.year, d2.day, d2.month, d2.year)
             cases.append((txt, ts0, {})); exp.append(date_pred(d1, d2)); fam.append("date pair")
     case_stratum(rng, cases, exp, fam, 240 if tier == "thorough" else 60)
+    label_stratum(rng, cases, exp, fam, 200 if tier == "thorough" else 50, preds_ok=True)
+    option_stratum(rng, cases, exp, fam, 200 if tier == "thorough" else 60)
     recs = parse_many(cases)
     return finish("C07", cases, exp, recs, "all 24x24 hour pairs x minute variants x joiners of the pattern language x date forms (none, explicit incl. month ends, relative, weekday); "
                   "before/after words of the pattern language incl. negations; ordered and reversed date pairs incl. multi-year. Oracle: start = A, start < end <= start + 24 h, "
@@ -565,7 +644,21 @@ def sweep_c08(rng, tier):
             for nn in (n, 1 if n != 1 else 2, n % 30 if n % 30 not in (0, n) else n + 1, n + 30):
                 txt = form % ((nn, A, B) if form.startswith("%d") else (A, B, nn))
                 cases.append((txt, ts0, {})); exp.append(range_pred(a, b, n, nn == n, txt)); fam.append("N days + range" + ("" if nn == n else " (wrong N)"))
+    # ranges written with small day numbers and a month name (every number is also a possible hour, day, month ...: many competing
+    # match sequences of the same coverage), in the year of their next occurrence
+    for (m, mw) in ((12, "Dec"), (11, "Nov"), (12, "Dezember")):
+        for d1 in (1, 9, 10, 11):
+            for n in (1, 2, 3):
+                d2 = d1 + n
+                a = date(2018, m, d1); b = date(2018, m, d2)
+                nwd = {1: "one", 2: "two", 3: "three"}[n]
+                for txt in ("%d days %d-%d %s" % (n, d1, d2, mw), "%s days %d-%d %s" % (nwd, d1, d2, mw), "%d nights %d-%d %s" % (n, d1, d2, mw),
+                            "%d-%d %s for %s night%s" % (d1, d2, mw, nwd, "" if n == 1 else "s"), "%d-%d %s %d days" % (d1, d2, mw, n)):
+                    if n == 1 and " 1 nights" in " " + txt: continue     # singular night is known finding D13
+                    cases.append((txt, ts0, {})); exp.append(I(dT(a), dT(b))); fam.append("N days + small-number range")
     case_stratum(rng, cases, exp, fam, 240 if tier == "thorough" else 60)
+    label_stratum(rng, cases, exp, fam, 200 if tier == "thorough" else 50)
+    option_stratum(rng, cases, exp, fam, 200 if tier == "thorough" else 60)
     recs = parse_many(cases)
     return finish("C08", cases, exp, recs, "N in 0..120 x unit words of the pattern language (digits, glued and blank separated); correctly spelt number words one..thirtyone / ein..einunddreissig x unit words; "
                   "half forms; '<date[ time]> for N units' from month ends and leap days vs calendar arithmetic; 'N days <range>' with the right N", families=fam)
@@ -685,6 +778,8 @@ def sweep_c20(rng, tier):
             continue
         cases.append((txt, ts, {})); exp.append(T(td["y"], td["m"], td["d"], tc["h"], tc["mi"])); fam.append(("clock first: " if form.startswith("rev") else form + ": ") + famname)
     case_stratum(rng, cases, exp, fam, 240 if tier == "thorough" else 60)
+    label_stratum(rng, cases, exp, fam, 200 if tier == "thorough" else 50)
+    option_stratum(rng, cases, exp, fam, 200 if tier == "thorough" else 60)
     recs = parse_many(cases)
     r = finish("C20", cases, exp, recs, "every (day family x clock family x order/connector) at several reference times incl. the boundary 'named weekday = weekday of the reference day'; expected = date the day part alone "
                "resolves to at hour:minute the clock part alone denotes (latent off); combinations whose parts alone are not a pure date / pure clock are skipped (counted)", families=fam)
